@@ -1321,6 +1321,52 @@ def param_roles(body):
     return [sorted(r) for r in roles]
 
 
+def caller_arg_roles(facts, path, n):
+    """Per parameter of `path`: what its call sites pass there, spelled independently of local names (a named constant, a chain
+    of field reads, a literal, the result of a call, a parameter of the caller by type)."""
+    roles = [set() for _ in range(n)]
+
+    def shape(b, a, depth=0):
+        while isinstance(a, tuple) and a[0] in ('ref', 'conv', 'cast', 'deref', 'copy', 'move') and len(a) > 1 and isinstance(a[-1], tuple):
+            a = a[-1]
+        if not isinstance(a, tuple):
+            return 'x'
+        if a[0] == 'v' and isinstance(a[2], int):
+            if 1 <= a[2] <= b.j['arg_count']:
+                return 'p:' + b.locals[a[2]]['ty']
+            d = b.def_term(a[2]) if depth < 3 else None
+            return shape(b, d, depth + 1) if d is not None else 'v:' + b.locals[a[2]]['ty']
+        if a[0] == 't' and depth < 3:
+            d = b.def_term(a[1])
+            return shape(b, d, depth + 1) if d is not None else 'x'
+        if a[0] == 'k':
+            return 'k:' + a[1]
+        if a[0] == 'c':
+            return 'c:%s' % (a[1],)
+        if a[0] == 'f':
+            fs = []
+            while isinstance(a, tuple) and a[0] == 'f':
+                fs.append(str(a[2]))
+                a = a[1]
+            return 'f:' + '.'.join(reversed(fs))
+        if a[0] == 'call':
+            return 'call:' + short(a[1])
+        return str(a[0])
+    for p, b in facts.bodies.items():
+        for bi, t in b.calls():
+            c = t['callee']
+            tgt = c.get('resolved') or c.get('path')
+            if tgt != path or len(t['args']) != n:
+                continue
+            try:
+                ct = b.call_term(bi, t)
+            except Exception:
+                continue
+            for i, a in enumerate(ct[2]):
+                roles[i].add('arg:' + shape(b, a))
+    return roles
+
+
 def _role_perms(facts):
     """Vocabulary functions with equally typed parameters whose order can neither be settled by parameter names nor by an
     exact summary match: choose the assignment that maximises the overlap of usage contexts with the reference
@@ -1346,13 +1392,21 @@ def _role_perms(facts):
         if cur_n == [nm for nm, ty in r]:
             continue
         cur = [set(x) for x in param_roles(b)]
+        for i, x in enumerate(caller_arg_roles(facts, p, len(r))):
+            cur[i] |= x
         ref = [set(x) for x in rr]
 
+        def jac(a, b_):
+            u = a | b_
+            return (len(a & b_) / len(u)) if u else 1.0
+
         def score(pm):
+            # uses inside the function and what the callers pass are two independent pieces of evidence
             tot = 0.0
             for i in range(len(pm)):
-                u = cur[i] | ref[pm[i]]
-                tot += (len(cur[i] & ref[pm[i]]) / len(u)) if u else 1.0
+                ci, ri = cur[i], ref[pm[i]]
+                tot += jac({x for x in ci if not x.startswith('arg:')}, {x for x in ri if not x.startswith('arg:')})
+                tot += jac({x for x in ci if x.startswith('arg:')}, {x for x in ri if x.startswith('arg:')})
             return tot
         cands = [list(pm) for pm in itertools.permutations(range(len(r))) if all(cur_t[i] == ref_t[pm[i]] for i in range(len(r)))]
         if len(cands) < 2:
